@@ -21,7 +21,8 @@ type c03Env struct {
 	Clock    int64  `json:"clock_start"`
 	Pool     int    `json:"pool"`
 	Seed     uint64 `json:"seed"`
-	Addr     int    `json:"addr_reuse_pct,omitempty"` // S8: chance that a new object takes a dead object's address (<0 never)
+	Pre      int    `json:"pre_render_variant,omitempty"` // > 0: the engine has rendered the same templates with OTHER data before (context variant k)
+	Addr     int    `json:"addr_reuse_pct,omitempty"`     // S8: chance that a new object takes a dead object's address (<0 never)
 }
 
 type c03Sc struct {
@@ -284,6 +285,8 @@ func (propC03) Gen(seed uint64, ex map[string]bool) interface{} {
 		f(&e)
 		sc.Envs = append(sc.Envs, e)
 	}
+	add("earlier-renders", func(e *c03Env) { e.Pre = 1 }) // the same engine served other data first
+	add("earlier-renders", func(e *c03Env) { e.Pre = 2 })
 	add("goroutine-schedule", func(e *c03Env) {}) // nothing differs but the seed that schedules goroutines the library may start
 	add("goroutine-schedule", func(e *c03Env) {})
 	add("memory-addresses", func(e *c03Env) { e.Addr = 100 }) // same environment, freshly allocated context and engine, eager address reuse
@@ -348,12 +351,23 @@ func c03Render(p *Program, env c03Env, twoLoaders, flood int) (Obs, Obs, *simrt.
 		e.RegisterString(fmt.Sprintf("zflood_%d", k), "F")
 	}
 	ctx := BuildCtx(p.Ctx, env.Build)
+	e.RegisterString("zz_other_work", "other work {% for i in [1, 2, 3] %}{{ i }}{{ s1 }}{% endfor %} "+strings.Repeat("filler ", 40)+"{{ m1|json_encode }}")
 	var o1, o2 Obs
+	held := uint64(0)
 	if ab := w.RunOne(func() {
+		if env.Pre > 0 {
+			observe(nil, func() (string, error) { return e.Render(p.Main, BuildCtx(p.Ctx.Variant(env.Pre), env.Build)) })
+		}
 		o1 = observe(nil, func() (string, error) { return e.Render(p.Main, ctx) })
+		held = strHash(o1.Out)
+		// unrelated work on the same engine while the caller still holds the first result
+		observe(nil, func() (string, error) { return e.Render("zz_other_work", ctx) })
 		o2 = observe(nil, func() (string, error) { return e.Render(p.Main, ctx) })
 	}); ab != "" {
 		o2 = Obs{Class: "aborted", Err: ab}
+	}
+	if o1.Class == "ok" && strHash(o1.Out) != held {
+		o1.Class = "result-changed-after-return" // a string the caller was given changed while other renders ran
 	}
 	return o1, o2, w
 }
@@ -369,6 +383,12 @@ func (propC03) Run(scI interface{}) *Outcome {
 			o.Stats[j] += w.Stat[j]
 		}
 		o.Probes["renders_repeated"]++
+		if first.Class == "result-changed-after-return" {
+			o.FP = simrt.Mix(fp, w.Fingerprint(), strHash(got.Key()))
+			o.Viol = &Violation{Oracle: "render-again", Sig: "a returned output changed after it was returned",
+				Detail: fmt.Sprintf("template %q (env #%d %+v)\n the string returned by the first render reads %q now", sc.Prog.Sources()[sc.Prog.Main], i, env, tail(first.Out, 200))}
+			return o
+		}
 		if first.Key() != got.Key() {
 			o.FP = simrt.Mix(fp, w.Fingerprint(), strHash(got.Key()))
 			o.Viol = &Violation{Oracle: "render-again", Sig: "rendering again in the same process gives different output",
